@@ -635,6 +635,23 @@ theorem C01_facts_bool :
     boolWords = [(4, wTrue.map (·.toNat), true), (5, wFalse.map (·.toNat), false)] := by
   decide +kernel
 
+/-- **C01_parser_stateless.**  The model describes `ParseBatchWithPrecision` as a function of its
+arguments only.  That is a faithful description of a parser instance shared by concurrently served
+requests (as `LineProtocolHandler.parser` is) only if the instance has nothing to carry from one call
+to another: in the CURRENT source `LineProtocolParser` has no fields and no method assigns through
+its receiver.  (A reusable scratch buffer on the parser would make concurrently parsed requests
+overwrite each other's unescaped names — this obligation then fails, and the harness monitor
+`concurrent-parse-differs:shared-parser` produces the failing interleaving.) -/
+theorem C01_parser_stateless :
+    Arc.Generated.C01.parserFields = [] ∧ Arc.Generated.C01.parserReceiverWrites = [] := ⟨rfl, rfl⟩
+
+/-- consequently every request of a set of concurrently served requests is parsed as if alone:
+the result for request `i` is `parseBatch` of its own bytes, whatever the other requests are -/
+theorem C01_concurrent_independent (pf : Bytes → Option UInt64) (now : Int) (pr : Prec)
+    (reqs : List Bytes) (i : Nat) (h : i < reqs.length) :
+    (reqs.map (parseBatch pf now pr))[i]'(by simpa using h) = parseBatch pf now pr reqs[i] := by
+  simp
+
 /-- interpretation of the generated precision table -/
 def convTsGen (arms : List (String × String × Int)) (dflt : Int) (now : Int) (label : String) (raw : Int) : Int :=
   match arms.find? (fun a => a.1 == label) with
